@@ -1,5 +1,7 @@
 pub mod builder;
 pub mod builder2;
+pub mod c03;
+pub mod c04;
 pub mod c08;
 pub mod c13;
 pub mod c16;
